@@ -45,7 +45,7 @@ class Trace:
         from symplyphysics.core.symbols import id_generator
         self.rec = rec
         self.mod = id_generator
-        self.last = dict(id_generator._ids)
+        self.last = dict(getattr(id_generator, "_ids", {}) or {})
         self.issued = set()
         self.orig = id_generator.next_id
         trace = self
@@ -70,13 +70,13 @@ class Trace:
     def observe(self, base, v):
         self.rec.hit("ids_traced")
         prev = self.last.get(base, 0)
-        if v != prev + 1:
-            self.rec.violation(f"id-trace:not-increasing-by-one:{base or 'none'}", f"next_id({base!r}) returned {v} after {prev}", {"prefix": base, "prev": prev, "got": v})
+        if v <= prev:  # freshness is what the statement needs: a counter that skips values is fine, one that goes back is not
+            self.rec.violation(f"id-trace:not-increasing:{base or 'none'}", f"next_id({base!r}) returned {v} after {prev}", {"prefix": base, "prev": prev, "got": v})
         if (base, v) in self.issued:
             self.rec.violation(f"id-trace:reissued:{base or 'none'}", f"id {base}{v} issued twice", {"prefix": base, "id": v})
         self.issued.add((base, v))
         self.last[base] = v
-        if len(str(v)) != len(str(v - 1)):
+        if len(str(v)) != len(str(prev)) and prev:
             self.rec.hit("digit_boundary_crossed")
 
 
